@@ -1,6 +1,8 @@
 package bpmn
 
 import (
+	"context"
+
 	"github.com/olive-io/bpmn/schema"
 	"github.com/olive-io/bpmn/v2/pkg/event"
 )
@@ -95,3 +97,49 @@ func verifC10AnswerThenEvent(withErr bool) {
 
 func VerifC10_AnswerThenEvent()    { verifC10AnswerThenEvent(false) }
 func VerifC10_ErrAnswerThenEvent() { verifC10AnswerThenEvent(true) }
+
+// ---- reduced scenarios: the host activity is a stand-in that answers at once (successfully or with an error that is
+// not retried); the activity harness with its boundary listeners, the boundary catch event and the flows are the real code.
+type verifInstantActivity struct {
+	elem    schema.FlowNodeInterface
+	outs    []*SequenceFlow
+	withErr bool
+}
+
+func (n *verifInstantActivity) NextAction(ctx context.Context, flow Flow) chan IAction {
+	ch := make(chan IAction, 1)
+	rsp := &FlowActionResponse{}
+	if n.withErr {
+		rsp.err = verifErr{}
+	}
+	verifPushAction(ch, flowAction{response: rsp, sequenceFlows: n.outs})
+	return ch
+}
+func (n *verifInstantActivity) Element() schema.FlowNodeInterface { return n.elem }
+func (n *verifInstantActivity) Type() ActivityType                { return TaskActivity }
+func (n *verifInstantActivity) Cancel() <-chan bool {
+	ch := make(chan bool, 1)
+	verifPushBool(ch, true)
+	return ch
+}
+
+func verifPushBool(ch chan bool, v bool) { ch <- v }
+
+func verifC10InstantThenEvent(withErr bool) {
+	inst, nx, ex := verifC10Inst(false)
+	if inst == nil {
+		return
+	}
+	h := inst.nodeAt("a").(*harness)
+	h.activity = &verifInstantActivity{elem: inst.elem("a"), outs: allSequenceFlows(&h.outgoing), withErr: withErr}
+	inst.tokenAt("a", "in")
+	verifQuiesce()
+	verifAssert(verifGet(nx) == 1, "the normal flow continues when the task is answered")
+	inst.proc.ConsumeEvent(event.NewSignalEvent("sigb"))
+	verifQuiesce()
+	verifReach("quiescent")
+	verifAssert(verifGet(ex) == 0, "once the activity has completed its boundary events no longer react")
+}
+
+func VerifC10_InstantAnswerThenEvent()    { verifC10InstantThenEvent(false) }
+func VerifC10_InstantErrAnswerThenEvent() { verifC10InstantThenEvent(true) }
